@@ -42,6 +42,10 @@ type (
 		disp            *cmdDispatcher
 		cmdQueue        *[]*cmdContext
 		cmdQueueAborted bool // a command was rejected while queueing; EXEC must not run
+		// databases the connection's running EXEC owns exclusively, with the
+		// (re-entrant) lock handle of each; nil outside EXEC. Only the goroutine
+		// that executes the connection's command touches it.
+		execOwned       map[*dataStore]*dataStoreCommand
 		watches         map[watchKey]uint64
 		blocked         int32
 		unblockPending  int32
@@ -276,6 +280,16 @@ func (cs *clientState) isBlocked() bool {
 		time.Sleep(us)
 		simYield("cs.spin")
 	}
+}
+
+// The handle through which a command of this connection locks database ds: the
+// owner's while the connection's EXEC holds ds exclusively (locking again
+// through a fresh handle would wait for itself), a fresh one otherwise.
+func (cs *clientState) lockHandle(ds *dataStore) *dataStoreCommand {
+	if owner, isOwned := cs.execOwned[ds]; isOwned {
+		return owner
+	}
+	return ds.newDataStoreCommand()
 }
 
 func (cs *clientState) dispatch(input respValue) (output respValue) {
